@@ -278,9 +278,9 @@ theorem helperDeposit_backed {c : Cfg} {s s' : St} {e : Env} {a0 a1 dur : Nat} (
   obtain ⟨b1, hb1, h⟩ := bind_eq_ok h
   obtain ⟨b2, hb2, h⟩ := bind_eq_ok h
   obtain ⟨_, _, h⟩ := bind_eq_ok h
-  obtain ⟨b3, hb3, h⟩ := bind_eq_ok h
   obtain ⟨lp, _, h⟩ := bind_eq_ok h
   obtain ⟨_, _, h⟩ := bind_eq_ok h
+  obtain ⟨b3, hb3, h⟩ := bind_eq_ok h
   obtain ⟨b4, hb4, h⟩ := bind_eq_ok h
   obtain ⟨_, _, h⟩ := bind_eq_ok h
   obtain ⟨b5, hb5, h⟩ := bind_eq_ok h
@@ -369,9 +369,9 @@ theorem step_FInv {c : Cfg} {s s' : St} {e : Env} {op : Op} (hW : WInv s) (hF : 
     obtain ⟨b1, _, h⟩ := bind_eq_ok h
     obtain ⟨b2, _, h⟩ := bind_eq_ok h
     obtain ⟨_, _, h⟩ := bind_eq_ok h
-    obtain ⟨b3, _, h⟩ := bind_eq_ok h
     obtain ⟨lp, _, h⟩ := bind_eq_ok h
     obtain ⟨_, _, h⟩ := bind_eq_ok h
+    obtain ⟨b3, _, h⟩ := bind_eq_ok h
     obtain ⟨b4, _, h⟩ := bind_eq_ok h
     obtain ⟨_, _, h⟩ := bind_eq_ok h
     obtain ⟨b5, _, h⟩ := bind_eq_ok h
